@@ -183,7 +183,7 @@ def analyse_unit(name, canary=False, rlimit=None, seed=None):
             fn_at.append((i + 1, m.group(1).strip(), "repo"))
         else:
             m = re.match(r"\s*(pub\s+)?(broadcast\s+)?(proof\s+|exec\s+|spec\s+|open\s+spec\s+|closed\s+spec\s+)?fn\s+([A-Za-z_0-9]+)", l)
-            if m and not (fn_at and fn_at[-1][0] >= i - 6 and fn_at[-1][2] == "repo" and fn_at[-1][1].split("::")[-1] == m.group(4)):
+            if m and not (fn_at and fn_at[-1][0] >= i - 6 and fn_at[-1][2] == "repo" and fn_at[-1][1].split("::")[-1] in (m.group(4), m.group(4)[3:] if m.group(4).startswith("vx_") else m.group(4))):
                 fn_at.append((i + 1, m.group(4), "overlay"))
 
     def fn_of_line(ln):
